@@ -42,15 +42,6 @@ let rec drop k l = if k <= 0 then l else match l with [] -> [] | _ :: t -> drop 
 let rec firstk k l = if k <= 0 then [] else match l with [] -> [] | x :: t -> x :: firstk (k - 1) t
 let be l = List.fold_left (fun a x -> a * 256 + x) 0 l
 
-(* the runner's echo body: <px bytes of result metadata> <int len> <8 byte marker> <padding> *)
-let decode_echo (px : int) (body : n list) : (int * int) option =
-  let b = ints_of body in
-  let len = List.length b in
-  if len < px + 12 then None else
-  let l = be (firstk 4 (drop px b)) in
-  if l <> len - px - 4 || l < 8 then None else
-  Some (be (firstk 8 (drop (px + 4) b)), l - 8)
-
 (* what the client may have returned for one request *)
 type expect =
   | ExactOk of int * int          (* ok:<marker>:<padlen>:1 *)
@@ -97,11 +88,25 @@ let classes_of_err (e : err_kind) : string list = match e with
   | EKeepaliveRequest -> ["broken.KeepaliveRequestError"]
   | EEnv _ -> ["broken.WriteError"; "broken.FrameHeaderParseError"]
 
-let expect_of_outcome (px : int) (idem : bool) (o : outcome option) : expect option =
+(* the echo at the FRONT of a body that has trailing bytes (a frame whose length field the mock corrupted
+   upwards swallows bytes of the next frames; the driver's Rows parser ignores what follows the rows) *)
+let echo_front (px : n list) (body : n list) : (int * int) option =
+  let rec firstk k l = if k <= 0 then [] else match l with [] -> [] | x :: t -> x :: firstk (k - 1) t in
+  let npx = List.length px in
+  let lenb = List.map int_of_n (firstk 4 (let rec drop k l = if k <= 0 then l else match l with [] -> [] | _ :: t -> drop (k - 1) t in drop npx body)) in
+  if List.length lenb < 4 then None else
+  let l = List.fold_left (fun a x -> a * 256 + x) 0 lenb in
+  if l < 8 || List.length body < npx + 4 + l then None else
+  (match echo_of px (firstk (npx + 4 + l) body) with Some (m, p) -> Some (int_of_n m, int_of_n p) | None -> None)
+
+let expect_of_outcome (px : n list) (idem : bool) (o : outcome option) : expect option =
+  let decode_echo px b = match echo_of px b with Some (m, p) -> Some (int_of_n m, int_of_n p) | None -> None in
   match o with
   | Some (Resp f) ->
     if int_of_n (f_opcode f) = 8 && int_of_n (f_flags f) = 0 then
-      (match decode_echo px f.f_body with Some (m, p) -> Some (ExactOk (m, p)) | None -> Some (ErrIn []))
+      (match decode_echo px f.f_body with
+       | Some (m, p) -> Some (ExactOk (m, p))
+       | None -> (match echo_front px f.f_body with Some _ -> Some OwnOkOrErr | None -> Some (ErrIn [])))
     else Some OwnOkOrErr
   | Some (FailBroken e) ->
     (* an idempotent request is sent again; when no connection is left the pool's error is returned *)
@@ -111,7 +116,7 @@ let expect_of_outcome (px : int) (idem : bool) (o : outcome option) : expect opt
   | None -> None                   (* seen by the mock, but neither answered nor failed in the model *)
 
 (* multi-attempt requests (idempotent, retried): first delivered frame wins, else some error *)
-let expectation_multi (px : int) (finals : conn list) (marker : int) : expect =
+let expectation_multi (px : n list) (finals : conn list) (marker : int) : expect =
   let outs = List.filter_map (fun st -> outcome_of (n_of_rid marker) st.c_done) finals in
   match List.find_opt (function Resp _ -> true | _ -> false) outs with
   | Some o -> (match expect_of_outcome px true (Some o) with Some e -> e | None -> ErrIn [])
@@ -133,6 +138,29 @@ let show = function
   | ErrIn l -> "err:" ^ String.concat "/" l
   | OwnOkOrErr -> "err-or-own-ok"
 
+let cres_of (r : string) : cres =
+  match String.split_on_char ':' r with
+  | ["ok"; m; p; k] ->
+    let m = int_of_string m and p = int_of_string p in
+    if m < 0 || p < 0 then ROk (n_of_int 0, n_of_int 0, false) else ROk (n_of_int m, n_of_int p, k = "1")
+  | ["err"; "panic"] -> RPanic
+  | "err" :: _ -> RErr
+  | ["cancelled"] -> RCancelled
+  | _ -> RHang
+
+(* pool events per node: "a<node>.<conn>" | "g.." | "b.." in the mock's global order *)
+let pool_events (s : string) : (int * pev list) list =
+  if s = "-" then [] else
+  let evs = List.map (fun tok ->
+    let body = String.sub tok 1 (String.length tok - 1) in
+    match String.split_on_char '.' body with
+    | [nd; c] ->
+      let c = n_of_int (int_of_string c) in
+      (int_of_string nd, (match tok.[0] with 'a' -> EvAdd c | 'g' -> EvGet c | 'b' -> EvBreak c | _ -> failwith "bad pool event"))
+    | _ -> failwith "bad pool event") (String.split_on_char ',' s) in
+  let nodes = List.sort_uniq compare (List.map fst evs) in
+  List.map (fun nd -> (nd, List.filter_map (fun (x, e) -> if x = nd then Some e else None) evs)) nodes
+
 let starts_with pre s = String.length s >= String.length pre && String.sub s 0 (String.length pre) = pre
 
 let verdict case impl =
@@ -149,7 +177,9 @@ let verdict case impl =
        let res = String.split_on_char ',' (get "res") in
        let fu = get "fu" and tmax = int_of_string (get "tmax") and bound = int_of_string (get "bound") in
        let probe_hangs = int_of_string (geto "ph" "0") in
-       let px = int_of_string (get "px") in
+       let px = bytes_of_hexstr (get "pxb") in
+       let aux = (match geto "aux" "-" with "-" -> [] | a -> String.split_on_char ',' a) in
+       let pools = pool_events (geto "pool" "-") in
        let conns = List.map reorder_after_fin (parse_conns (get "conns")) in
        let nres = List.length res in
        let res_arr = Array.of_list res in
@@ -166,8 +196,21 @@ let verdict case impl =
        List.iter (fun t -> List.iter (fun (r, b) -> Hashtbl.add sent_tbl (int_of_n r) b) (sent_table [] t)) conns;
        (* ---- 1. the property predicate on the implementation's own output, ALWAYS ---- *)
        let viol = ref [] in
+       let realigned = ref false in
        let add v = viol := v :: !viol in
-       if tmax > bound || List.mem "hang" res || fu = "hang" || probe_hangs > 0 then add "request-hangs";
+       if tmax > bound || List.mem "hang" res || fu = "hang" || probe_hangs > 0 || List.mem "hang" aux then add "request-hangs";
+       let decode_echo px b = match echo_of px b with Some (m, p) -> Some (int_of_n m, int_of_n p) | None -> None in
+       (* a request frame on a connection whose replacement was already established *)
+       List.iter (fun (nd, es) ->
+         if not (pool_accept es) then begin
+           (* is it that (the property), or a malformed event sequence (broken correspondence)? *)
+           let rec bad seen_break repl = function
+             | [] -> false
+             | EvBreak c :: r -> bad (c :: seen_break) repl r
+             | EvAdd _ :: r -> bad [] (seen_break @ repl) r
+             | EvGet c :: r -> List.mem c repl || bad seen_break repl r in
+           if bad [] [] es then add (Printf.sprintf "request-sent-on-a-broken-connection-of-node-%d-after-its-replacement-was-established" nd)
+         end) pools;
        List.iteri (fun i r ->
          match String.split_on_char ':' r with
          | ["err"; "panic"] -> add (Printf.sprintf "client-task-%d-panicked" (i + 1))
@@ -176,8 +219,18 @@ let verdict case impl =
            if m <> i + 1 || padok <> "1" then
              add (Printf.sprintf "request-%d-got-foreign-or-damaged-body" (i + 1))
            else begin
+             let rid = n_of_rid (i + 1) in
              let sent = List.exists (fun b -> decode_echo px b = Some (m, p))
-                 (Hashtbl.find_all sent_tbl (int_of_n (n_of_rid (i + 1)))) in
+                 (Hashtbl.find_all sent_tbl (int_of_n rid))
+               (* after the mock itself mis-framed the stream (corrupted length field) frames are no longer
+                  aligned with the written chunks: then the frame-aligned parse of the whole byte stream
+                  decides, i.e. the model's reader (C10_framing, C10_no_partial, C10_no_cross) *)
+               || List.exists (fun t -> List.exists (fun (st, _) ->
+                    match outcome_of rid st.c_done with
+                    | Some (Resp f) -> decode_echo px f.f_body = Some (m, p) || echo_front px f.f_body = Some (m, p)
+                    | _ -> false) (candidates t)) conns in
+             if sent && not (List.exists (fun b -> decode_echo px b = Some (m, p)) (Hashtbl.find_all sent_tbl (int_of_n rid)))
+             then realigned := true;
              if not sent then
                add (Printf.sprintf "request-%d-returned-a-body-never-completely-sent-for-it" (i + 1))
            end
@@ -194,9 +247,12 @@ let verdict case impl =
          List.exists (function TOut _ -> true | _ -> false) t
          && not (List.exists (function TFin | TRst | TClose -> true | _ -> false) t)) conns in
        if fu = "err" && live_conn then add "session-does-not-serve-follow-up";
+       (* the kernel-checked conjunction (C10_accept_sound): must hold before any `ok` *)
+       if !viol = [] && not !realigned && not (accept_obs px idem conns (List.map cres_of res)) then add "property-predicate-rejects-the-observation";
        match !viol with
        | v :: _ -> "viol " ^ v
        | [] ->
+         if List.exists (fun (_, es) -> not (pool_accept es)) pools then "diff pool-events-are-not-a-run-of-the-pool-machine" else
          if fu <> "ok" then "diff follow-up-failed-and-no-live-pool-connection-was-observed-at-the-mock" else
          (* ---- 2. does some admissible run of the model give exactly these outcomes? ---- *)
          let independent = Array.for_all (fun c -> c <= 1) seen in
